@@ -114,6 +114,8 @@ def run_check(mod, tier, replay_path=None):
                 agg["sim_s"] += r.get("sim_s", 0.0)
                 agg["inconclusive"] += r.get("inconclusive", 0)
                 agg["harness"] += r.get("harness", 0)
+                if r.get("harness_trace") and not agg.get("trace"):
+                    agg["trace"] = r["harness_trace"]
                 for k, n in r.get("faults", {}).items():
                     agg["faults"][k] = agg["faults"].get(k, 0) + n
                 for k, n in r.get("probes", {}).items():
@@ -173,7 +175,9 @@ def run_check(mod, tier, replay_path=None):
         print("  class=%s :: %s" % ("/".join(v["class"]), v["detail"][:300]))
         print("VIOLATION property=%s replay=%s" % (mod.ID, path))
         rc = 1
-    if agg["evals"] == 0:
-        print("harness error: nothing was evaluated", file=sys.stderr)
+    if agg.get("trace"):
+        print("harness error (first of %d):\n%s" % (agg["harness"], agg["trace"]), file=sys.stderr)
+    if agg["evals"] == 0 or agg["harness"] * 5 > max(1, agg["tasks"]):
+        print("harness error: nothing was evaluated or too many tasks failed inside the harness", file=sys.stderr)
         return 2
     return rc
